@@ -23,8 +23,9 @@ MAX_STATES = 60000
 
 
 class Client:
-    """override what is needed"""
-    track_fields = True
+    """override what is needed.  track: 'all' (variables + tested pure conditions), 'vars' (variables only),
+    'none' (path-insensitive: every CFG edge is feasible, no valuation is kept)"""
+    track = 'all'
 
     def init(self, fn):
         return ()
@@ -465,7 +466,7 @@ class Run:
                 for (a, v) in autos:
                     ctx = Ctx(self, v, item)
                     r = self.client.on_node(fn, node, a, ctx)
-                    if not isinstance(el, dict):
+                    if not isinstance(el, dict) and self.client.track != 'none':
                         self.step(node, v)
                         if el in self._stmt_level or node['k'] in ('DeclStmt',):
                             for kk in [kk for kk in v if kk[0] == 'm']:
@@ -493,13 +494,17 @@ class Run:
                         continue
                     v2 = dict(v)
                     a2 = a
-                    if cond is not None and len(succ) == 2 and termk not in ('SwitchStmt', 'CXXTryStmt', 'IndirectGotoStmt'):
+                    if cond is not None and len(succ) == 2 and termk not in ('SwitchStmt', 'CXXTryStmt', 'IndirectGotoStmt') \
+                            and self.client.track != 'none':
                         learned = []
                         pol = (idx == 0)
                         if not self.assume(cond, pol, v2, learned):
                             continue
                         for (ln, lv) in learned:
                             a2 = self.client.learn(fn, ln, lv, a2, Ctx(self, v2, item))
+                        if self.client.track == 'vars':
+                            for kk in [kk for kk in v2 if kk[0] == 'p']:
+                                del v2[kk]
                     if termk in STMT_TERMS:
                         for kk in [kk for kk in v2 if kk[0] == 'm']:
                             del v2[kk]
